@@ -65,6 +65,9 @@ func newScheduler(fx *fixture) *scheduler {
 		if only := os.Getenv("C14_GROUPS"); only != "" && !strings.Contains(","+only+",", ","+g+",") { // developer aid
 			continue
 		}
+		if sub := os.Getenv("C14_VARIANT"); sub != "" && !strings.Contains(v.fam+"."+v.name, sub) { // developer aid
+			continue
+		}
 		if _, ok := s.byGroup[g]; !ok {
 			s.groups = append(s.groups, g)
 			w := groupWeights[g]
